@@ -1,7 +1,7 @@
 ----------------------------- MODULE MC_WinconAnsi -----------------------------
 (* C17: all 17 x 17 colour pairs x data from a small alphabet x inner-writer        *)
 (* scripts: accept any prefix of the data, fail (Interrupted / WouldBlock / Other)  *)
-(* at any of the up to four inner writes, or accept a code only partially.          *)
+(* at any of the up to four inner writes, or accept a code (fg, bg or the reset) only partially.          *)
 (* Design check: the ideal algorithm (fg code, bg code, data, reset - each a        *)
 (* separate inner write) satisfies WinconAnsi!CallOk under every script.  Every     *)
 (* script is printed for replay against the real writers.                           *)
@@ -12,13 +12,16 @@ Kinds == {"eI", "eW", "eO"}
 FgCode(k) == IF k = 16 THEN <<>> ELSE <<27, 91>> \o (IF k < 8 THEN <<51, 48 + k>> ELSE <<57, 48 + k - 8>>) \o <<109>>
 BgCode(k) == IF k = 16 THEN <<>> ELSE <<27, 91>> \o (IF k < 8 THEN <<52, 48 + k>> ELSE <<49, 48, 48 + k - 8>>) \o <<109>>
 ResetCode == <<27, 91, 48, 109>>
-VARIABLES fg, bg, d, failAt, kind, pre, shortCode
-vars == <<fg, bg, d, failAt, kind, pre, shortCode>>
+VARIABLES fg, bg, d, failAt, kind, pre, shortAt
+vars == <<fg, bg, d, failAt, kind, pre, shortAt>>
 Init == /\ fg \in 0..16 /\ bg \in 0..16 /\ d \in 1..Len(Datas)
-        /\ failAt \in 0..4 /\ kind \in Kinds /\ pre \in 0..3 /\ shortCode \in BOOLEAN
+        /\ failAt \in 0..4 /\ kind \in Kinds /\ pre \in 0..3 /\ shortAt \in 0..4
         /\ (failAt = 0 => kind = "eO") /\ pre <= Len(Datas[d])
         /\ (pre = Len(Datas[d]) \/ StartsChar(Datas[d][pre + 1]))   \* the writer accepts whole characters
-        /\ (shortCode => failAt = 0 /\ pre = Len(Datas[d]) /\ (fg # 16 \/ bg # 16))
+        \* shortAt = k > 0: the k-th inner write call is offered a code and accepts one byte of it (any of fg, bg, reset)
+        /\ (shortAt # 0 => failAt = 0 /\ pre = Len(Datas[d]) /\ (fg # 16 \/ bg # 16)
+                           /\ shortAt # 1 + (IF fg # 16 THEN 1 ELSE 0) + (IF bg # 16 THEN 1 ELSE 0)
+                           /\ shortAt <= 2 + (IF fg # 16 THEN 1 ELSE 0) + (IF bg # 16 THEN 1 ELSE 0))
 Next == UNCHANGED vars
 Spec == Init /\ [][Next]_vars
 \* the ideal algorithm's inner writes under the script; returns the observed call record
@@ -38,5 +41,5 @@ Ideal ==
         ELSE Go(k + 1, Append(inner, <<steps[k][2], "ok", Len(steps[k][2])>>), n)
   IN Go(1, <<>>, 0)
 DesignOk == LET o == Ideal IN CallOk([fg |-> fg, bg |-> bg, data |-> Datas[d], inner |-> o.inner, ret |-> o.ret])
-Emit == PrintT(ToJson([fg |-> fg, bg |-> bg, data |-> Datas[d], failAt |-> failAt, kind |-> kind, pre |-> pre, shortCode |-> shortCode]))
+Emit == PrintT(ToJson([fg |-> fg, bg |-> bg, data |-> Datas[d], failAt |-> failAt, kind |-> kind, pre |-> pre, shortAt |-> shortAt, shortCode |-> (shortAt # 0)]))
 =============================================================================
